@@ -61,14 +61,14 @@ def run(prog, chk):
                         "that the saved font reloads"]
     static, special = fallback_tables(prog, chk)
     sites, consumed = r161(prog, chk, static, special)
-    r162(prog, chk, special)
-    r166(prog, chk, special)
-    r163(prog, chk)
-    r163b(prog, chk)
-    r164(prog, chk)
-    r165(prog, chk, consumed)
-    r167(prog, chk)
-    r168(prog, chk)
+    chk.guard(r162, prog, chk, special)
+    chk.guard(r166, prog, chk, special)
+    chk.guard(r163, prog, chk)
+    chk.guard(r163b, prog, chk)
+    chk.guard(r164, prog, chk)
+    chk.guard(r165, prog, chk, consumed)
+    chk.guard(r167, prog, chk)
+    chk.guard(r168, prog, chk)
 
 
 # ------------------------------------------------------------------------- tables
